@@ -48,6 +48,15 @@ type Task struct {
 	since    int  // scheduler step at which the task became runnable (parked and eligible)
 }
 
+// StepRec describes one scheduler step (KeepSteps).
+type StepRec struct {
+	Step int
+	Task int
+	Lock bool // the task was released at a lock acquisition site
+	Site string
+	At   time.Duration
+}
+
 // EndReason says why a run ended.
 type EndReason int
 
@@ -129,6 +138,10 @@ type Sim struct {
 	FairBound int
 	// ForcedFair counts the steps at which fairness overrode the tape.
 	ForcedFair int
+	// KeepSteps records (task, hook kind, simulated time) of every step, so a
+	// scenario can read off at which step an operation's critical section ran.
+	KeepSteps bool
+	StepRecs  []StepRec
 	// MaxWait is the largest number of steps any task spent runnable before it
 	// was released (measured; progress oracles derive their step bounds from it).
 	MaxWait int
@@ -500,6 +513,9 @@ func (s *Sim) Run() EndReason {
 		}
 		s.mu.Unlock()
 		s.logStep(t)
+		if s.KeepSteps {
+			s.StepRecs = append(s.StepRecs, StepRec{Step: s.steps, Task: t.ID, Lock: t.kind == kindLock, Site: t.site, At: time.Since(s.start)})
+		}
 		t.wake <- struct{}{}
 	}
 }
@@ -650,3 +666,14 @@ func Keys[M ~map[K]V, K comparable, V any](m M, site string) []K {
 // Bump records progress for the wall-clock watchdog (scenarios that do not
 // use the scheduler call it once per run).
 func Bump() { progress.Add(1) }
+
+
+// TaskID returns the id of the calling task (0 if the caller is not a task).
+func (s *Sim) TaskID() int {
+	s.mu.Lock()
+	defer s.mu.Unlock()
+	if t := s.byGID[goid()]; t != nil {
+		return t.ID
+	}
+	return 0
+}
